@@ -118,6 +118,8 @@ ODDITIES = {
     "rst_closed": [("H", "get"), ("R", None)],
     "winup_closed": [("H", "get"), ("W", "slot+1")],
     "unknown_closed": [("H", "get"), ("U", "slot+1")],
+    # RST_STREAM of the first stream of the session, then a PRIORITY frame that names it as parent again
+    "rst_prio": [("H", "get"), ("R", 0), ("P", "dep")],
 }
 
 
